@@ -78,9 +78,12 @@ def gen_history(rng, ctx):
     for _ in range(n_ev):
         if n_sk > 1 and rng.random() < 0.15:
             a, b = int(rng.integers(0, n_sk)), int(rng.integers(0, n_sk))
-            events.append(["merge", a, b])
+            events.append(["merge", a, b] + (["q"] if rng.random() < 0.4 else []))
         else:
-            events.append([int(rng.integers(0, n_sk)), ops.gen_op(rng, keys, max_value=10**6, zero=0.0, big=0.05)])
+            ev = [int(rng.integers(0, n_sk)), ops.gen_op(rng, keys, max_value=10**6, zero=0.0, big=0.05)]
+            if rng.random() < 0.4:
+                ev.append("q")  # read query() right after this operation (and therefore also before the next one)
+            events.append(ev)
     # final merge tree: random pairing until one is left; sometimes re-merge an already merged operand
     alive = list(range(n_sk))
     while len(alive) > 1:
@@ -111,7 +114,7 @@ def run_history(case, ctx, mon):
             if a != b:
                 mon.check(np.array_equal(real[b].registers, before_b), "merge-leaves-other-unchanged", ev=ev)
         else:
-            i, op = ev
+            i, op = ev[0], ev[1]
             mon.api(ops.apply_op, real[i], op)
             for k, _v in ops.effects(op):
                 if k in model[i].keys:
@@ -120,6 +123,15 @@ def run_history(case, ctx, mon):
             mon.count("ops:" + op[0])
             i_check = i
             a = i
+        if ev[0] != "merge" and len(ev) > 2 and ev[2] == "q" or (ev[0] == "merge" and len(ev) > 3):
+            # quiescent observation in the middle of the history: query() must be the estimate of the *current* registers,
+            # i.e. bit-identical to the first query() of a brand-new sketch holding the same registers
+            got = float(mon.api(real[a].query))
+            twin = s.HyperLogLog(p, seed)
+            twin.registers[:] = real[a].registers
+            want = float(twin.query())
+            mon.check(got == want, "query()-reflects-current-registers(mid-history)", got=got, want=want, ev=ev, p=p, seed=seed)
+            mon.count("mid_history_queries")
         ok = np.array_equal(real[a].registers, model[a].reg)
         if not ok:
             bad = np.flatnonzero(real[a].registers != model[a].reg)[:5]
@@ -178,6 +190,24 @@ def run_crafted(case, ctx, mon):
               p=p, idx=case["idx"], want_rank=case["rank"], got=int(h.registers[case["idx"]]),
               nonzero=np.flatnonzero(h.registers)[:4].tolist())
     mon.check(int(np.count_nonzero(h.registers)) == 1, "one-add-touches-one-register", p=p)
+    k2_used = None
+    if p <= 12:
+        # search a second key that lands in the same register (any rank): it must not lower a high register
+        rs = np.random.default_rng(case["rank"] * 131 + p)
+        for _try in range(40 << p >> 5):
+            k2 = bytes(rs.integers(0, 256, int(rs.integers(1, 9)), dtype=np.uint8))
+            i2, r2 = hll_ref.rank_and_index(hashes_ref.fasthash64(k2, seed), p)
+            if i2 == case["idx"] and k2 != key:
+                float(h.query())
+                h.add(k2)
+                m.add(k2, mon)
+                k2_used = k2
+                mon.check(int(h.registers[case["idx"]]) == max(case["rank"], r2), "register-keeps-the-maximum-rank(same-register-second-key)",
+                          p=p, idx=case["idx"], first_rank=case["rank"], second_rank=r2, got=int(h.registers[case["idx"]]))
+                mon.count("crafted_same_register_pairs")
+                if case["rank"] == 64 - p + 1:
+                    mon.count("crafted_same_register_after_max_rank")
+                break
     for k in case["others"]:
         h.add(unhx(k))
         m.add(unhx(k), mon)
@@ -185,6 +215,8 @@ def run_crafted(case, ctx, mon):
     h2 = s.HyperLogLog(p, seed)
     for k in reversed(case["others"]):
         h2.add(unhx(k))
+    if k2_used is not None:
+        h2.add(k2_used)
     h2.add(key, 5)
     mon.check(np.array_equal(h.registers, m.reg), "registers==model(distinct keys)", p=p, seed=seed)
     mon.check(np.array_equal(h.registers, h2.registers), "order-independent", p=p, seed=seed)
@@ -277,3 +309,5 @@ def floors(mon, ctx):
     mon.floor("crafted (p, rank) pairs", len(mon.classes["crafted_rank"]), sum(64 - p + 1 for p in range(7, 17)))
     mon.floor("exhaustive key sets", mon.counters["exhaustive_sets"], 4)
     mon.floor("values of p", len(mon.classes["p"]), 10)
+    mon.floor("query() observations in mid-history", mon.counters["mid_history_queries"], 200)
+    mon.floor("same-register second keys after a maximum-rank key", mon.counters["crafted_same_register_after_max_rank"], 3)
